@@ -101,6 +101,21 @@ static void lib_dec(const char *m, size_t mlen, pdec *d) {
 	}
 	KSI_PublicationData_free(pd);
 	free(copy);
+	/* a refused string leaves nothing behind on the context: after every refusal two hashes are created on it (they come from the
+	 * context's pool of recycled hash objects) and must be two different, intact objects */
+	if (res != KSI_OK) {
+		KSI_DataHash *a = NULL, *b = NULL;
+		const unsigned char *pa = NULL, *pb = NULL;
+		size_t la = 0, lb = 0;
+		unsigned char wa[RH_MAX_IMPRINT], wb[RH_MAX_IMPRINT];
+		size_t na = ref_imprint(RH_SHA256, "c17-a", 5, wa), nb = ref_imprint(RH_SHA256, "c17-b", 5, wb);
+		if (KSI_DataHash_create(ctx, "c17-a", 5, KSI_HASHALG_SHA2_256, &a) != KSI_OK || KSI_DataHash_create(ctx, "c17-b", 5, KSI_HASHALG_SHA2_256, &b) != KSI_OK) vf_harness_error("hash after a refused string");
+		if (a == b || KSI_DataHash_getImprint(a, &pa, &la) != KSI_OK || KSI_DataHash_getImprint(b, &pb, &lb) != KSI_OK || la != na || lb != nb || memcmp(pa, wa, na) != 0 || memcmp(pb, wb, nb) != 0) {
+			static int once;
+			if (!once++) vf_fail("context-damaged-by-refused-string", "after the refused string \"%.*s\" (0x%x) two hashes created on the context are %s", (int)(mlen > 80 ? 80 : mlen), m, res, a == b ? "one and the same object" : "not the hashes of their inputs");
+		}
+		KSI_DataHash_free(a); KSI_DataHash_free(b);
+	}
 }
 
 static void ref_dec(const char *m, size_t n, int mode, pdec *d) {
